@@ -175,6 +175,12 @@ theorem nextOf_written_partial (c : OnClause) (h : c.isGuardedSingle = false) :
     c.nextOf = c.written := by
   cases c <;> simp_all [OnClause.nextOf, OnClause.written, OnClause.isGuardedSingle]
 
+/-- non-vacuity: a list with a guarded and a plain entry, and the advanced form with a guarded
+    single `next`, meet the hypothesis and keep their targets. -/
+example : (OnClause.list [⟨"a", true⟩, ⟨"b", false⟩]).isGuardedSingle = false ∧
+    (OnClause.list [⟨"a", true⟩, ⟨"b", false⟩]).nextOf = ["a", "b"] ∧
+    (OnClause.advSingle ⟨"a", true⟩).nextOf = ["a"] := by decide
+
 /-- the unrestricted statement is false of the current code: `on-success: {t1: <% $.x %>}` is
     accepted by the schema (TASK_WITH_EXPRESSION) and yields no transition.  Replayed on the real
     parser by the `graph` stream (known finding `accepted-transition-lost`). -/
